@@ -18,6 +18,9 @@
                    clause is met at engine level by keeping the visible catalog, `Props.C05.visible_le_durable`;
                    at file level `fault_reports` allows exactly old, or new once the rename has happened.)
   The first counterexample in this order is returned.  Core-only, total.
+  Theorems (`Props/C05.lean`): `search_ce_sound` / `search_ce_image` (a returned counterexample is a reachable
+  post-crash state of the interpreter on the given list that violates the named clause), `no_rename_keeps_old`
+  (meaning of the trace), `search_no_false_alarm` (on the expected protocol the search returns none, for all contents).
 -/
 import Lungo.Model.AtomicWrite
 namespace Lungo.AtomicSearch
@@ -181,7 +184,7 @@ def explored (P : Params) : Nat :=
   ((plans P).map (fun ft => ((cuts P ft).map (fun k =>
     1 + (imgDescs (interpUpTo P.steps P.path P.tmp P.chunks (faultsOf ft) k P.s0).1).length)).sum)).sum
 
-/-! ### the concrete shapes used by the stream's corpus (and by the kernel-checked test in Props.C05) -/
+/-! ### the concrete shapes sent by the stream's corpus (driver op `fs.shapes`; `Props.C05.search_expected_safe`) -/
 
 structure Shape where
   old : Option Bytes
